@@ -33,7 +33,7 @@ BadPanels(ps, s, a) == {ps[k].n : k \in {i \in 1..Len(ps) : ~(PanelOK(ps[i], s[p
 
 \* power loss: a hard state written by an update that only moved the commit index may have been lost;
 \* the recovered one is then an earlier acknowledged hard state of the same term and vote (LogStore!soft)
-PowerLoss(ev) == ev.op = "Recovered" \/ (ev.op = "Reopen" /\ ev.pl)
+PowerLoss(ev) == ev.op = "Recovered" \/ (ev.op \in {"Reopen", "Imported"} /\ ev.pl)
 SoftenOK(s, ps) == [k \in 0..(N - 1) |->
                     LET I == {i \in 1..Len(ps) : ps[i].n = k /\ ps[i].rserr = "" /\ ps[i].st \in s[k].soft} IN
                     IF I # {} THEN [s[k] EXCEPT !.st = ps[CHOOSE i \in I : TRUE].st] ELSE s[k]]
@@ -58,13 +58,23 @@ Next ==
        [] ev.op = "Save" /\ ev.crashed ->
             \* interrupted by a crash: per replica before or after, decided at "Recovered"
             st' = st /\ alt' = ApplyUps(st, ev.ups, 1) /\ bad' = bad
-       [] ev.op \in {"Recovered", "Reopen", "Query"} ->
+       \* the import itself: visible or not is decided by the observation that follows (it always follows)
+       [] ev.op = "Import" ->
+            /\ st' = (IF ev.crashed \/ ev.res # "ok" THEN st ELSE [st EXCEPT ![ev.n] = ImportRec(@, ev.idx, ev.val)])
+            /\ alt' = [st EXCEPT ![ev.n] = ImportRec(@, ev.idx, ev.val)]
+            /\ bad' = bad
+       [] ev.op \in {"Recovered", "Reopen", "Query", "Imported"} ->
             LET s1 == IF PowerLoss(ev) THEN SoftenOK(st, ev.panels) ELSE st
                 a1 == IF PowerLoss(ev) THEN SoftenOK(alt, ev.panels) ELSE alt
                 r == Resolve(ev.panels, s1, a1)
+                \* a replica whose data is gone altogether although the specification has some (flagged above):
+                \* the driver continues with an empty replica, like a NodeHost would, and so does the judge
+                gone == {k \in 0..(N - 1) : \E i \in 1..Len(ev.panels) :
+                           ev.panels[i].n = k /\ ev.panels[i].rserr = "nosavedlog" /\ r[k].st # NoState}
+                r2 == [k \in 0..(N - 1) |-> IF k \in gone THEN LSInit ELSE r[k]]
             IN /\ bad' = IF PanelsOK(ev.panels, s1, a1) THEN bad ELSE Flag(ev, BadPanels(ev.panels, s1, a1))
-               /\ st' = (IF PowerLoss(ev) THEN Hard(r) ELSE r)
-               /\ alt' = (IF PowerLoss(ev) THEN Hard(r) ELSE r)
+               /\ st' = (IF PowerLoss(ev) THEN Hard(r2) ELSE r2)
+               /\ alt' = (IF PowerLoss(ev) THEN Hard(r2) ELSE r2)
        [] ev.op = "SaveSnapshot" ->
             LET post == [st EXCEPT ![ev.n] = SaveSnapshotRec(@, ev.idx)] IN
             /\ st' = post /\ alt' = post
